@@ -4,6 +4,7 @@ import RichModel.Lemmas.StyleParse
 import RichModel.Lemmas.StyleSpell
 import RichModel.Lemmas.StyleSpellNum
 import RichModel.Lemmas.StyleSpellRgb
+import RichModel.Lemmas.StrTablesReal
 /-!
 # C06 — styles form a consistent algebra, round-trip through text, and hash consistently
 
@@ -12,6 +13,12 @@ Property theorems only (helper lemmas live in `Lemmas/`).  `v : StyleVariant` se
 named in the hypotheses; the hash theorem needs the four hash repairs, the `str()` round trip of
 arbitrary reachable styles needs the `update_link` cache repair.  `Reachable v s` = `s` can be built
 with the public constructors (`Lemmas/Style.lean`).
+
+`T : StrTables` are the interpreter's character tables (`str.isspace`, `str.isdecimal`/`int`,
+`str.lower`, the `int()` digit limit); every text theorem holds for **all** tables satisfying
+`StrTables.Lawful` — both `StrTables.ascii` (`ascii_tables_lawful`) and the tables translated from the
+running Python on this run (`StrTables.real`, all code points: `real_tables_lawful`, re-proved from the
+regenerated tables by `decide +kernel` on every run) are proved lawful.  `parse v` / `normalize v` / `wf v` without `T` are the ASCII instances.
 
 `Style.eq` is `Style.__eq__`; `hashKey` is the tuple whose `hash()` the object stores.
 -/
@@ -31,9 +38,8 @@ theorem add_null_right (v : StyleVariant) (a : Style) :
   ⟨Style.add_null_right v a, Style.add_null_right v a, rfl⟩
 
 /-- The null style is a left identity up to `==`, for every constructible style whose link is not
-the empty string (`Style(link="")` is `_null`, so `NULL_STYLE + Style(link="")` is `NULL_STYLE`,
-whose link is `None`: outside the statement, see the assumptions). -/
-theorem add_null_left (v : StyleVariant) (a : Style) (ha : Reachable v a) (hl : a.link ≠ some []) :
+the empty string — in every code variant. -/
+theorem add_null_left_of_link (v : StyleVariant) (a : Style) (ha : Reachable v a) (hl : a.link ≠ some []) :
     eq (add v Style.null a) a = true := by
   cases hn : a.isNull with
   | false => rw [Style.add_null_left v a hn]; simp [eq]
@@ -47,6 +53,13 @@ theorem add_null_left (v : StyleVariant) (a : Style) (ha : Reachable v a) (hl : 
         | nil => exact absurd hk hl
         | cons x r => rw [hk] at h5; cases h5
     simp [add, hn, eq, Style.null, h1, h2, h3, h4, this]
+
+/-- **The null style is a left identity up to `==` for every constructible style**, once an empty
+link is stored as `None` (pending_fixes/C06-empty-link-is-no-link.diff).  On rich 9.10.0 as found this
+is false at `Style(link="")`: `old_empty_link_breaks_identity`. -/
+theorem add_null_left (v : StyleVariant) (hv : v.emptyLink = false) (a : Style) (ha : Reachable v a) :
+    eq (add v Style.null a) a = true :=
+  add_null_left_of_link v a ha (ha.linkOk hv)
 
 /-- Right bias, attributes: bit by bit the right operand wins exactly where it specifies a value
 (`attr` is the descriptor `style.bold`, `style.dim`, …: `none` = not set). -/
@@ -96,41 +109,97 @@ theorem chain_is_fold (v : StyleVariant) (first : Style) (rest : List Style) :
     chain v (first :: rest) = .ok (rest.foldl (add v) first) ∧ chain v [] = .error .stopIteration :=
   ⟨rfl, rfl⟩
 
+/-! ### The stored `_null` flag
+
+`_null` is stored, not recomputed: `without_color`, `update_link` and `copy` set it to `False` even
+when no field is left (`Style(color="red").without_color == Style()` yet `bool()` of it is `True`),
+and `+` short-cuts on it.  This does **not** break the statement of C06: `_null` is not compared by
+`==`, not hashed, and — the next two theorems — cannot be observed through `+` and `==` either: the
+compared fields of a sum are the general merge of the operands' compared fields whatever the flags
+say, so `+` respects `==`, and a "non-null empty" style is as much an identity as `NULL_STYLE`
+(`a + e == a`, `e + a == a`).  What the flag does change is `bool(style)`, which is outside C06. -/
+
+/-- The five compared fields of `a + b` are the merge of the compared fields of `a` and `b`: the
+`_null` short cuts of `__add__` are unobservable. -/
+theorem add_is_merge (v : StyleVariant) (hv : v.emptyLink = false) (a b : Style)
+    (ha : Reachable v a) (hb : Reachable v b) :
+    (add v a b).color = b.color.or a.color ∧ (add v a b).bgcolor = b.bgcolor.or a.bgcolor ∧
+    (add v a b).setAttributes = a.setAttributes ||| b.setAttributes ∧
+    (add v a b).attributes = andNot a.attributes b.setAttributes ||| (b.attributes &&& b.setAttributes) ∧
+    (add v a b).link = linkOr b.link a.link :=
+  add_fields v ha.inv hb.inv (ha.linkOk hv) (hb.linkOk hv)
+
+/-- `+` respects `==`: equal operands (however built, whatever their `_null` flags, hashes and caches)
+give equal sums. -/
+theorem add_respects_eq (v : StyleVariant) (hv : v.emptyLink = false) (a a' b b' : Style)
+    (ha : Reachable v a) (ha' : Reachable v a') (hb : Reachable v b) (hb' : Reachable v b')
+    (e1 : eq a a' = true) (e2 : eq b b' = true) : eq (add v a b) (add v a' b') = true :=
+  add_congr v ha.inv ha'.inv hb.inv hb'.inv (ha.linkOk hv) (ha'.linkOk hv) (hb.linkOk hv) (hb'.linkOk hv) e1 e2
+
+/-- Every constructible style that compares equal to `NULL_STYLE` is a two-sided identity up to `==`,
+flagged `_null` or not. -/
+theorem empty_style_is_identity (v : StyleVariant) (hv : v.emptyLink = false) (e a : Style)
+    (he : Reachable v e) (ha : Reachable v a) (h : eq e Style.null = true) :
+    eq (add v a e) a = true ∧ eq (add v e a) a = true := by
+  have hn : Reachable v Style.null := Reachable.null
+  have eqa : eq a a = true := by simp [eq]
+  constructor
+  · have := add_respects_eq v hv a a e Style.null ha ha he hn eqa h
+    rwa [Style.add_null_right] at this
+  · have h1 := add_respects_eq v hv e Style.null a a he hn ha ha h eqa
+    have h2 := add_null_left v hv a ha
+    rw [eq_iff] at h1 h2 ⊢
+    obtain ⟨p1, p2, p3, p4, p5⟩ := h1
+    obtain ⟨q1, q2, q3, q4, q5⟩ := h2
+    exact ⟨p1.trans q1, p2.trans q2, p3.trans q3, p4.trans q4, p5.trans q5⟩
+
 /-! ## Text round trip -/
+
+/-- The ASCII rules are lawful character tables (so every theorem below holds for the two-argument
+`parse v`, `normalize v`, `wf v` that other models use). -/
+theorem ascii_tables_lawful : StrTables.Lawful StrTables.ascii := inferInstance
+
+/-- The character tables translated from the running Python on this run (`str.isspace`,
+`str.isdecimal`/`int`, `str.lower` of every code point, `Gen/StrTables.lean`) are lawful: they agree
+with the ASCII rules below 128, `lower()` is idempotent and creates no white space.  So every theorem
+below holds for `Color.parse` / `Style.parse` over **all** code points (the one thing outside the
+tables is the context-dependent lower-casing of GREEK CAPITAL SIGMA). -/
+theorem real_tables_lawful : StrTables.Lawful StrTables.real := inferInstance
+
 
 /-- **Round trip of the computed definition.**  For every well-formed style (`Style.wf`, decidable:
 13 attribute bits with values only where set, colours whose name is a white-space-free definition
 of that very colour, a link that is `None` or one non-empty word) the definition `__str__`
 computes parses, and parses back to an equal style. -/
-theorem parse_render_roundtrip (v : StyleVariant) (s : Style) (hwf : wf v s = true) :
-    ∃ s', parse v (render s) = .ok s' ∧ eq s' s = true :=
+theorem parse_render_roundtrip (T : StrTables) [T.Lawful] (v : StyleVariant) (s : Style) (hwf : wfT T v s = true) :
+    ∃ s', parseT T v (render s) = .ok s' ∧ eq s' s = true :=
   parse_render (wf_iff.mp hwf)
 
 /-- **Round trip of `str()`** for every constructible well-formed style, once `update_link` no
 longer copies the cached definition (otherwise false: `old_update_link_stale_str`). -/
-theorem parse_str_roundtrip (v : StyleVariant) (hv : v.updateLinkDef = false) (s : Style) (hr : Reachable v s)
-    (hwf : wf v s = true) : ∃ s', parse v (str s) = .ok s' ∧ eq s' s = true := by
+theorem parse_str_roundtrip (T : StrTables) [T.Lawful] (v : StyleVariant) (hv : v.updateLinkDef = false) (s : Style) (hr : Reachable v s)
+    (hwf : wfT T v s = true) : ∃ s', parseT T v (str s) = .ok s' ∧ eq s' s = true := by
   have : str s = render s := by
     rcases hr.cacheOk hv with h | h <;> simp [str, h]
   rw [this]
-  exact parse_render_roundtrip v s hwf
+  exact parse_render_roundtrip T v s hwf
 
 /-- Every style that `Style.parse` returns is well-formed (so the round trip applies to it), for
-every input string and every code variant. -/
-theorem parse_result_wf (v : StyleVariant) (d : List Char) (s : Style) (h : parse v d = .ok s) : wf v s = true :=
+every input string, every code variant and every lawful character table. -/
+theorem parse_result_wf (T : StrTables) [T.Lawful] (v : StyleVariant) (d : List Char) (s : Style) (h : parseT T v d = .ok s) : wfT T v s = true :=
   (parse_wf h).1
 
 /-- `parse(str(parse(d))) == parse(d)` for every definition `d` that parses. -/
-theorem parse_str_parse (v : StyleVariant) (d : List Char) (s : Style) (h : parse v d = .ok s) :
-    ∃ s', parse v (str s) = .ok s' ∧ eq s' s = true := by
+theorem parse_str_parse (T : StrTables) [T.Lawful] (v : StyleVariant) (d : List Char) (s : Style) (h : parseT T v d = .ok s) :
+    ∃ s', parseT T v (str s) = .ok s' ∧ eq s' s = true := by
   rw [(parse_wf h).2]
-  exact parse_render_roundtrip v s (parse_wf h).1
+  exact parse_render_roundtrip T v s (parse_wf h).1
 
 /-- `normalize(d)` parses back to `parse(d)`, for every definition that parses. -/
-theorem normalize_roundtrip (v : StyleVariant) (d : List Char) (s : Style) (h : parse v d = .ok s) :
-    ∃ t s', normalize v d = .ok t ∧ parse v t = .ok s' ∧ eq s' s = true := by
-  obtain ⟨s', h1, h2⟩ := parse_str_parse v d s h
-  exact ⟨str s, s', by simp [normalize, h], h1, h2⟩
+theorem normalize_roundtrip (T : StrTables) [T.Lawful] (v : StyleVariant) (d : List Char) (s : Style) (h : parseT T v d = .ok s) :
+    ∃ t s', normalizeT T v d = .ok t ∧ parseT T v t = .ok s' ∧ eq s' s = true := by
+  obtain ⟨s', h1, h2⟩ := parse_str_parse T v d s h
+  exact ⟨str s, s', by simp [normalizeT, h], h1, h2⟩
 
 /-- `normalize` is idempotent on every definition that parses: `normalize(normalize(d)) == normalize(d)`.
 
@@ -139,13 +208,13 @@ Full statement (no hypothesis on `d`) is **false on the code as it is**, see
 does not parse can produce one that does (the word after `not` is the only one `parse` does not
 lower-case) and is then normalised further.  Definitions that do not parse are outside the
 statement of C06 ("the string form of any style"). -/
-theorem normalize_idempotent (v : StyleVariant) (d : List Char) (s : Style) (h : parse v d = .ok s) :
-    ∃ t, normalize v d = .ok t ∧ normalize v t = .ok t := by
-  obtain ⟨s', h1, h2⟩ := parse_str_parse v d s h
-  refine ⟨str s, by simp [normalize, h], ?_⟩
+theorem normalize_idempotent (T : StrTables) [T.Lawful] (v : StyleVariant) (d : List Char) (s : Style) (h : parseT T v d = .ok s) :
+    ∃ t, normalizeT T v d = .ok t ∧ normalizeT T v t = .ok t := by
+  obtain ⟨s', h1, h2⟩ := parse_str_parse T v d s h
+  refine ⟨str s, by simp [normalizeT, h], ?_⟩
   have e1 : str s' = render s' := (parse_wf h1).2
   have e2 : str s = render s := (parse_wf h).2
-  simp only [normalize, h1]
+  simp only [normalizeT, h1]
   rw [e1, e2, render_eq_of_eq h2]
 
 /-- Witness for the remark above (any variant of the code). -/
@@ -156,12 +225,6 @@ theorem normalize_not_idempotent_unparseable :
 
 /-! ## Documented spellings (table driven) -/
 
-/-- The style with exactly attribute `i` specified, with value `on`, as `__init__` builds it. -/
-def single (i : Nat) (on : Bool) : Style :=
-  let a := if on then 1 <<< i else 0
-  { color := none, bgcolor := none, attributes := a, setAttributes := 1 <<< i, link := none,
-    hash := ⟨none, none, some a, some (1 <<< i), none⟩, isNull := false, styleDef := none }
-
 /-- The documented attribute words (docs/source/style.rst and the `Style` docstring) with the bit
 of the attribute each one names: 0 bold, 1 dim, 2 italic, 3 underline, 4 blink, 5 blink2, 6 reverse,
 7 conceal, 8 strike, 9 underline2, 10 frame, 11 encircle, 12 overline. -/
@@ -171,27 +234,24 @@ def documentedAttrs : List (List Char × Nat) :=
    (cl! "conceal", 7), (cl! "c", 7), (cl! "strike", 8), (cl! "s", 8), (cl! "underline2", 9), (cl! "uu", 9),
    (cl! "frame", 10), (cl! "encircle", 11), (cl! "overline", 12), (cl! "o", 12)]
 
-theorem attr_spellings_tbl :
-    documentedAttrs.all (fun p =>
-      isOk (parse StyleVariant.fixed p.1) (single p.2 true) &&
-      isOk (parse StyleVariant.fixed (cl! "not " ++ p.1)) (single p.2 false)) = true := by
-  decide +kernel
+theorem attr_spellings_tbl : documentedAttrs.all (fun p => goodAttr (p.2, p.1)) = true := by
+  decide
 
 /-- Every documented attribute word parses to exactly that attribute switched on, and `not <word>`
-to exactly that attribute switched off (nothing else set), in every code variant. -/
-theorem attr_spellings (v : StyleVariant) (w : List Char) (i : Nat) (h : (w, i) ∈ documentedAttrs) :
-    parse v w = .ok (single i true) ∧ parse v (cl! "not " ++ w) = .ok (single i false) := by
-  have := List.all_eq_true.mp attr_spellings_tbl (w, i) h
-  simp only [Bool.and_eq_true, isOk_iff] at this
-  exact ⟨parse_ok_indep this.1, parse_ok_indep this.2⟩
+to exactly that attribute switched off (nothing else set) — in every code variant and for every
+lawful character table. -/
+theorem attr_spellings (T : StrTables) [T.Lawful] (v : StyleVariant) (w : List Char) (i : Nat)
+    (h : (w, i) ∈ documentedAttrs) :
+    parseT T v w = .ok (single i true) ∧ parseT T v (cl! "not " ++ w) = .ok (single i false) :=
+  parse_attr_word (goodAttr_of (p := (i, w)) (List.all_eq_true.mp attr_spellings_tbl (w, i) h))
 
 /-- Every name in `ANSI_COLOR_NAMES` (as translated from rich/color.py on this run) parses to the
 colour of that name and number — standard below 16, eight-bit from 16 — as a foreground colour, and
 after `on` as a background colour; nothing else is set. -/
-theorem named_color_spellings (v : StyleVariant) (name : List Char) (number : Nat)
+theorem named_color_spellings (T : StrTables) [T.Lawful] (v : StyleVariant) (name : List Char) (number : Nat)
     (h : (name, number) ∈ Gen.ansiColorNames) :
     let c : Color := { name := name, type := if number < 16 then .standard else .eightBit, number := some number }
-    parse v name = .ok (onlyColor c true) ∧ parse v (cl! "on " ++ name) = .ok (onlyColor c false) :=
+    parseT T v name = .ok (onlyColor c true) ∧ parseT T v (cl! "on " ++ name) = .ok (onlyColor c false) :=
   parse_color_word (named_color_wf v h)
 
 /-- The sixteen system colours carry their documented names. -/
@@ -203,48 +263,52 @@ theorem standard_color_names :
   standard_names_tbl
 
 /-- `color(n)` for every n ≤ 255 (decimal digits of n) is colour number n, foreground and background. -/
-theorem color_number_spellings (v : StyleVariant) (n : Nat) (h : n < 256) :
+theorem color_number_spellings (T : StrTables) [T.Lawful] (v : StyleVariant) (n : Nat) (h : n < 256) :
     let text := cl! "color(" ++ Nat.toDigits 10 n ++ cl! ")"
     let c : Color := { name := text, type := if n < 16 then .standard else .eightBit, number := some n }
-    parse v text = .ok (onlyColor c true) ∧ parse v (cl! "on " ++ text) = .ok (onlyColor c false) :=
+    parseT T v text = .ok (onlyColor c true) ∧ parseT T v (cl! "on " ++ text) = .ok (onlyColor c false) :=
   parse_color_word (numbered_color_wf v h)
 
 /-- `default` is the default colour (`default on default` is what the documentation calls the
 terminal's starting style). -/
-theorem default_color_spelling (v : StyleVariant) :
-    parse v (cl! "default") = .ok (onlyColor defaultColor true) ∧
-    parse v (cl! "on default") = .ok (onlyColor defaultColor false) :=
+theorem default_color_spelling (T : StrTables) [T.Lawful] (v : StyleVariant) :
+    parseT T v (cl! "default") = .ok (onlyColor defaultColor true) ∧
+    parseT T v (cl! "on default") = .ok (onlyColor defaultColor false) :=
   parse_color_word (default_color_wf v)
 
-/-- `#` followed by three pairs of (lower-case) hex digits is the truecolor with those components,
-foreground and background — for all 16^6 such strings.  (Upper-case digits are lower-cased by
-`Color.parse` first; that path is exercised by the correspondence, not stated here.) -/
-theorem hex_color_spellings (v : StyleVariant) (a b c d e f : Char) (h : [a, b, c, d, e, f].all isHexLower = true) :
+/-- `#` followed by three pairs of hex digits **of either letter case** is the truecolor with those
+components, foreground and background — for all 22^6 such strings.  `Style.parse` (alone) and
+`Color.parse` (after `on`) lower-case the word, so the colour's name is the lower-cased text. -/
+theorem hex_color_spellings (T : StrTables) [T.Lawful] (v : StyleVariant) (a b c d e f : Char)
+    (h : [a, b, c, d, e, f].all isHex = true) :
     let text := ['#', a, b, c, d, e, f]
-    let col : Color := { name := text, type := .truecolor,
-                         triplet := some ⟨16 * hexVal a + hexVal b, 16 * hexVal c + hexVal d, 16 * hexVal e + hexVal f⟩ }
-    parse v text = .ok (onlyColor col true) ∧ parse v (cl! "on " ++ text) = .ok (onlyColor col false) :=
-  parse_color_word (hex_color_wf v a b c d e f h)
+    let (a', b', c', d', e', f') := (lowerChar a, lowerChar b, lowerChar c, lowerChar d, lowerChar e, lowerChar f)
+    let col : Color := { name := ['#', a', b', c', d', e', f'], type := .truecolor,
+                         triplet := some ⟨16 * hexVal a' + hexVal b', 16 * hexVal c' + hexVal d', 16 * hexVal e' + hexVal f'⟩ }
+    parseT T v text = .ok (onlyColor col true) ∧ parseT T v (cl! "on " ++ text) = .ok (onlyColor col false) := by
+  obtain ⟨hl, hx, hns⟩ := lower_hex (T := T) a b c d e f h
+  exact parse_color_word_lower (hex_color_wf v _ _ _ _ _ _ hx) (by simp) hns hl
 
 /-- `hexVal` reads the sixteen digits as 0..15. -/
 theorem hex_digit_values : (cl! "0123456789abcdef").map hexVal = List.range 16 ∧
-    (cl! "0123456789abcdef").all isHexLower = true := by
+    (cl! "0123456789ABCDEF").map (fun c => hexVal (lowerChar c)) = List.range 16 ∧
+    (cl! "0123456789abcdefABCDEF").all isHex = true := by
   decide
 
 /-- `rgb(r,g,b)` with decimal r, g, b ≤ 255 is the truecolor with those components, foreground and
 background — for all 2^24 triplets. -/
-theorem rgb_color_spellings (v : StyleVariant) (r g b : Nat) (hr : r < 256) (hg : g < 256) (hb : b < 256) :
+theorem rgb_color_spellings (T : StrTables) [T.Lawful] (v : StyleVariant) (r g b : Nat) (hr : r < 256) (hg : g < 256) (hb : b < 256) :
     let text := cl! "rgb(" ++ (Nat.toDigits 10 r ++ ',' :: (Nat.toDigits 10 g ++ ',' :: Nat.toDigits 10 b)) ++ [')']
     let col : Color := { name := text, type := .truecolor, triplet := some ⟨r, g, b⟩ }
-    parse v text = .ok (onlyColor col true) ∧ parse v (cl! "on " ++ text) = .ok (onlyColor col false) :=
+    parseT T v text = .ok (onlyColor col true) ∧ parseT T v (cl! "on " ++ text) = .ok (onlyColor col false) :=
   parse_color_word (rgb_color_wf v r g b hr hg hb)
 
 /-- The words the style grammar gives a meaning of their own (`on not link none` and the 22
 attribute words) are not colour definitions on this run's `ANSI_COLOR_NAMES` — the side condition
 that makes the round trip unambiguous. -/
-theorem keywords_are_not_colors (v : StyleVariant) (k : List Char) (hk : k ∈ styleKeywords) :
-    Color.parse v k = .error .colorParse :=
-  keyword_not_color v hk
+theorem keywords_are_not_colors (T : StrTables) [T.Lawful] (v : StyleVariant) (k : List Char) (hk : k ∈ styleKeywords) :
+    Color.parseT T v k = .error .colorParse :=
+  keyword_not_color T v hk
 
 /-! ## Equal styles have equal hashes -/
 
@@ -313,6 +377,14 @@ theorem old_update_link_stale_str :
          | .error _ => false)) = some (true, false) := by
   decide
 
+/-- F30: `Style(link="")` is `_null`, so `NULL_STYLE + Style(link="")` is `NULL_STYLE`, whose link is
+`None` — not `==` to `Style(link="")`; likewise `Style(link="").copy()`. -/
+theorem old_empty_link_breaks_identity :
+    (match init StyleVariant.old none none [] (some []) with
+     | .ok a => some (eq (add StyleVariant.old Style.null a) a, eq a.copy a, a.isNull)
+     | .error _ => none) = some (false, false, true) := by
+  decide
+
 /-! ## Non-vacuity: the hypotheses are met by concrete non-trivial values -/
 
 /-- `bold not italic red on #0000ff link https://x.y` as a style: -/
@@ -329,6 +401,11 @@ example : Reachable StyleVariant.fixed (add StyleVariant.fixed (fromColor StyleV
 example : StyleVariant.fixed.addHash = false ∧ StyleVariant.fixed.updateLinkDef = false := ⟨rfl, rfl⟩
 example : (cl! "uu", 9) ∈ documentedAttrs := by decide
 example : (cl! "grey37", 59) ∈ Gen.ansiColorNames := by decide
+-- all code points: KELVIN SIGN lower-cases to `k`, ARABIC-INDIC / FULLWIDTH digits are `\d` digits, U+3000 is white space
+example : (parseT StrTables.real StyleVariant.fixed (cl! "lin\u212a x on BLAC\u212a")).toOption.map
+    (fun s => (s.link, s.bgcolor.map (·.name))) = some (some ['x'], some (cl! "black")) := by decide +kernel
+example : (Color.parseT StrTables.real StyleVariant.fixed (cl! "\u3000rgb(\u0661,\uff12, 3)")).toOption.map (·.triplet) =
+    some (some ⟨1, 2, 3⟩) := by decide +kernel
 example : (parse StyleVariant.fixed (cl! "bold red")).toOption.map (fun s => (s.attr 0, s.attr 1)) = some (some true, none) := by
   decide
 
